@@ -188,6 +188,9 @@ theorem arr_step_refines (d : α) (op : ArrOp α) (st : ArrSt α) (h : ArrInv st
     arrAbs (op.step d st).1 = (op.spec d (arrAbs st)).1 ∧ (op.step d st).2 = (op.spec d (arrAbs st)).2 := by
   cases op with
   | push r x => simp [ArrOp.step, ArrOp.spec, arrAbs_setR]
+  | pushSelf r i =>
+    simp only [ArrOp.step, ArrOp.spec, arrAbs_apply]
+    cases (st r).data[i]? <;> simp [arrAbs_setR]
   | appC r s => simp [ArrOp.step, ArrOp.spec, arrAbs_setR]
   | appM r s => simp [ArrOp.step, ArrOp.spec, arrAbs_setR, ArrayM.appendMove_data _ _ (h r)]
   | asgC r s =>
@@ -218,6 +221,11 @@ theorem arr_step_inv (d : α) (op : ArrOp α) (st : ArrSt α) (h : ArrInv st) : 
   unfold ArrInv at *
   cases op with
   | push r x => exact all_setR st r _ h (ArrayM.push_inv _ _ (h r))
+  | pushSelf r i =>
+    simp only [ArrOp.step]
+    cases (st r).data[i]? with
+    | none => exact h
+    | some x => exact all_setR st r _ h (ArrayM.push_inv _ _ (h r))
   | appC r s => exact all_setR st r _ h (ArrayM.appendCopy_inv _ _)
   | appM r s => exact all_setR _ s _ (all_setR st r _ h (ArrayM.appendMove_inv _ _ (h s))) ArrayM.empty_inv
   | asgC r s =>
